@@ -233,3 +233,15 @@ fn scalar_codec_validates() {
         assert!(r.is_ok() == ACCEPT);
     }
 }
+
+/// C16: the big boxed array codec (used for the 128 digit signatures) returns a value or an error for any number of
+/// elements a self-describing format may present; Ok only when exactly N elements are present.
+#[kani::proof]
+#[kani::unwind(6)]
+fn big_boxed_array_total_n2() {
+    let count: usize = kani::any();
+    kani::assume(count <= 4);
+    let r: Result<Box<[u8; 2]>, HErr> = crate::serde::big_boxed_array::deserialize::<u8, SeqDe, 2>(SeqDe { count, hint: any_hint() });
+    if r.is_ok() { assert!(count >= 2); }
+    if count < 2 { assert!(r.is_err()); }
+}
